@@ -35,6 +35,10 @@ QUANT = {
     "servers": "servers", "mirroring_target_index": "mirror_index", "mirrors": "mirrors",
     "ban_time": "ban_time", "error_count": "error_count",
 }
+# fields that only hold other configuration (collections / sub-structs); their leaves are what matters
+CONTAINERS = {"pools", "general", "users", "user", "settings", "address", "plugins", "shards_map", "path", "database", "host", "username",
+              "pool_name", "password", "query", "port", "role", "id", "replica_number", "stats", "db", "name"}
+
 # quantities whose panic-capable uses are harmless by construction, with the reason
 BENIGN = {
     "regex_search_limit": "only an upper bound inside min(len-5, limit); slice bounded by the frame (C11 inventory for malformed frames)",
@@ -67,11 +71,44 @@ def badconfig_returns(F, fn):
     out = []
     if b is None:
         return None
+    live = b.reach([0])
     for blk, i, st in b.assigns():
         rv = st["rv"]
+        if blk not in live:
+            continue  # dead code (e.g. behind `if false && ..`) validates nothing
         if rv["k"] == "agg" and rv.get("agg") == "adt" and rv.get("adt", "").endswith("errors::Error") and rv.get("variant") == "BadConfig":
             fields, callees, consts = set(), set(), set()
-            for sb, t in b.control_deps(blk):
+            # direct control dependences, extended along chains of the same comparison on the same scrutinee
+            # (`match s { "a" => .., "b" => .., other => return Err }` compiles to a chain of str::eq tests)
+            def family(sb):
+                sw_ = b.blocks[sb]["term"]
+                fam = set()
+                for o in origins(b, sw_["op"]):
+                    if o.kind == "call":
+                        roots = set()
+                        for a in o.call.args:
+                            v_ = set()
+                            origins(b, a, visited=v_)
+                            roots |= {l for l in v_ if b.varnames.get(l) or 1 <= l <= b.argc}
+                        fam.add((o.call.name, frozenset(roots)))
+                return fam
+            deps = list(b.direct_control_deps(blk))
+            seen_sb = {sb for sb, _ in deps}
+            work = list(deps)
+            while work:
+                sb, t = work.pop()
+                f1 = family(sb)
+                if not f1:
+                    continue
+                for sb2, t2 in b.direct_control_deps(sb):
+                    if sb2 in seen_sb:
+                        continue
+                    f2 = family(sb2)
+                    if any(n1 == n2 and (r1 & r2) for (n1, r1) in f1 for (n2, r2) in f2):
+                        seen_sb.add(sb2)
+                        deps.append((sb2, t2))
+                        work.append((sb2, t2))
+            for sb, t in deps:
                 sw = b.blocks[sb]["term"]
                 for o in origins(b, sw["op"], taint=True):
                     if o.kind in ("place", "param") and o.proj:
@@ -146,7 +183,7 @@ def run(ctx):
     vcheck("min_pool_size<=pool_size", USER_VALIDATE, "min_pool_size <= pool_size (bb8 build asserts)", fields=["min_pool_size", "pool_size"])
     vcheck("user-timeouts>0", USER_VALIDATE, "user-level timeouts must not be 0", fields=["connect_timeout", "idle_timeout", "server_lifetime"])
     vcheck("general-timeouts>0", CFG_VALIDATE, "general timeouts must not be 0", fields=["general", "connect_timeout", "idle_timeout", "server_lifetime"])
-    vcheck("credentials-present", CFG_VALIDATE, "every user has a password unless auth_query is configured", fields=["password", "auth_query"])
+    vcheck("credentials-present", CFG_VALIDATE, "every user has a password unless auth_query is configured", fields=["password"])
 
     # ------------------------------------------------------------ structural / call-site dischargers
     rs = ctx.rule("C15-S", "structural dischargers: call-site guards and by-construction facts used by the pairing", floor=3)
@@ -214,7 +251,7 @@ def run(ctx):
         sites = panic_sites(b, include_expansion=False)
         for pat, contract in CONTRACT.items():
             for c in b.calls(pat):
-                sites.append({"kind": "contract", "block": c.block, "what": contract, "ops": c.args[1:] if len(c.args) > 1 else c.args, "span": c.span, "exp": c.exp, "call": c})
+                sites.append({"kind": "contract", "block": c.block, "what": contract, "ops": c.args[1:] if (len(c.args) > 1 and "build" not in contract) else c.args[:1], "span": c.span, "exp": c.exp, "call": c})
         for bb, blk in enumerate(b.blocks):
             for st in blk["stmts"]:
                 if st["k"] == "assign" and st["rv"]["k"] == "bin" and st["rv"]["op"] in ("Rem", "Div"):
@@ -234,15 +271,18 @@ def run(ctx):
                 for sb, t in b.control_deps(s["block"], depth=2):
                     ops.append(b.blocks[sb]["term"]["op"])
             for op in ops:
-                for o in origins(b, op, taint=True):
+                for o in origins(b, op, taint=True, taint_barrier=domain_struct_barrier):
                     if o.kind == "call" and o.call.name == "pgcat::config::get_config":
                         cfgcall = True
                     if o.kind in ("place", "param") and o.proj:
-                        flds |= {p[1:] for p in o.proj if p.startswith(".")} & allcfg
+                        fl = [p[1:] for p in o.proj if p.startswith(".") and not p[1:].isdigit()]
+                        root_ty = b.locals[o.what]["ty"] if isinstance(o.what, int) else ""
+                        if fl and fl[-1] in allcfg and "pgcat::" in root_ty:
+                            flds.add(fl[-1])
                     if o.kind == "param" and in_fc_closure:
                         param_t = True
             quants = {QUANT[f] for f in flds if f in QUANT}
-            unknown = {f for f in flds if f not in QUANT}
+            quants |= {"?unregistered:" + f for f in flds if f not in QUANT and f not in CONTAINERS}
             if not quants and not (in_fc_closure and param_t):
                 continue
             if in_fc_closure and param_t and not quants:
